@@ -145,9 +145,9 @@ func toStatus(s string) client.TaskStatus {
 // ---------------------------------------------------------------- pools
 
 var (
-	taskIDs    = []string{"t1", "t2", "t3", "t4"}
+	taskIDs    = []string{"t1", "t2", "t", "t1_b"} // ids that are string prefixes of each other: listings and associations are key-prefix scans
 	badTaskID  = "bad id!"
-	tmplIDs    = []string{"p1", "p2", "p3"}
+	tmplIDs    = []string{"p1", "p2", "p", "p1_b"}
 	badTmplID  = "bad tmpl!"
 	allTaskIDs = append(append([]string{}, taskIDs...), badTaskID)
 	allTmplIDs = append(append([]string{}, tmplIDs...), badTmplID)
